@@ -207,7 +207,10 @@ def inject(ast, reg, bounds, r, g):
         if k == 1 and node[2]:
             node[2].pop(r.randrange(len(node[2])))
             return ast, "arity", depth
-        node[2].insert(r.randrange(len(node[2]) + 1), r.choice([["lit", 1], ["q", "@", []], ["lit", "a"]]))
+        node[2].insert(r.randrange(len(node[2]) + 1), r.choice([
+            ["lit", 1], ["q", "@", []], ["lit", "a"], ["paren", ["test", ["q", "@", [["child", [["name", "b"]]]]]]],
+            ["not", ["test", ["q", "@", []]]], ["paren", ["paren", ["test", ["q", "$", []]]]],
+            ["paren", ["cmp", "==", ["q", "@", []], ["lit", 1]]]]))
         return ast, "arity", depth
     if kind == "arg":
         pt = info
